@@ -333,26 +333,8 @@ func (g *gen) inject(pos token.Pos, name string, sig *types.Signature, set *Prov
 	ec := new(errorCollector)
 	for i := range calls {
 		c := &calls[i]
-		if c.hasCleanup && !injectSig.cleanup {
-			ts := types.TypeString(c.out, nil)
-			ec.add(notePosition(
-				g.pkg.Fset.Position(pos),
-				fmt.Errorf("inject %s: provider for %s returns cleanup but injection does not return cleanup function", name, ts)))
-		}
-		if c.hasErr && !injectSig.err {
-			ts := types.TypeString(c.out, nil)
-			ec.add(notePosition(
-				g.pkg.Fset.Position(pos),
-				fmt.Errorf("inject %s: provider for %s returns error but injection not allowed to fail", name, ts)))
-		}
+		ec.add(injectorCallErrors(g.pkg.Fset, pos, name, injectSig, c, g.pkg.PkgPath)...)
 		if c.kind == valueExpr {
-			if err := accessibleFrom(c.valueTypeInfo, c.valueExpr, g.pkg.PkgPath); err != nil {
-				// TODO(light): Display line number of value expression.
-				ts := types.TypeString(c.out, nil)
-				ec.add(notePosition(
-					g.pkg.Fset.Position(pos),
-					fmt.Errorf("inject %s: value %s can't be used: %v", name, ts, err)))
-			}
 			if g.values[c.valueExpr] == "" {
 				t := c.valueTypeInfo.TypeOf(c.valueExpr)
 
@@ -391,6 +373,36 @@ func (g *gen) inject(pos token.Pos, name string, sig *types.Signature, set *Prov
 		g.p(")\n\n")
 	}
 	return nil
+}
+
+// injectorCallErrors reports the reasons why call c cannot be part of the
+// injector called name, declared at pos in package pkgPath with result
+// signature injectSig. It is shared by code generation and by Load, so that
+// "wire check" rejects what "wire gen" rejects.
+func injectorCallErrors(fset *token.FileSet, pos token.Pos, name string, injectSig outputSignature, c *call, pkgPath string) []error {
+	var errs []error
+	if c.hasCleanup && !injectSig.cleanup {
+		ts := types.TypeString(c.out, nil)
+		errs = append(errs, notePosition(
+			fset.Position(pos),
+			fmt.Errorf("inject %s: provider for %s returns cleanup but injection does not return cleanup function", name, ts)))
+	}
+	if c.hasErr && !injectSig.err {
+		ts := types.TypeString(c.out, nil)
+		errs = append(errs, notePosition(
+			fset.Position(pos),
+			fmt.Errorf("inject %s: provider for %s returns error but injection not allowed to fail", name, ts)))
+	}
+	if c.kind == valueExpr {
+		if err := accessibleFrom(c.valueTypeInfo, c.valueExpr, pkgPath); err != nil {
+			// TODO(light): Display line number of value expression.
+			ts := types.TypeString(c.out, nil)
+			errs = append(errs, notePosition(
+				fset.Position(pos),
+				fmt.Errorf("inject %s: value %s can't be used: %v", name, ts, err)))
+		}
+	}
+	return errs
 }
 
 // rewritePkgRefs rewrites any package references in an AST into references for the
